@@ -598,7 +598,7 @@ class URLMethodsMixin:
            ``route_path`` will be ignored.  ``scheme``, ``host``, and
            ``port`` are also ignored.
         """
-        kw['app_url'] = self.script_name
+        kw['app_url'] = self._quoted_script_name()
         return self.resource_url(resource, *elements, **kw)
 
     def static_url(self, path, **kw):
